@@ -20,11 +20,11 @@ EXPLANATION = (
     "evaluated for n = 0..7) with n = bits 4..2 of the validated end frame; R5 CRC: support flag assigned on every "
     "path of __init__ from bit 2 of the answer, every returned segment fed once, comparison with the server's '<H' "
     "dominates the final return, mismatch aborts with 0x05040004 and raises; R6 end confirmation iff done and no error; "
-    "block boundary acknowledged at _ackseq >= blksize or the last segment, _ackseq wraps after a full block."
+    "block boundary acknowledged at _ackseq >= blksize or the last segment, _ackseq wraps after a full block; R7 the "
+    "initiate and end responses are validated before use (clause shared with C07.R3)."
 )
 ASSUMPTIONS = [
     "not decided: loss/corruption runs; server assumed standard-conformant",
-    "validate-before-use of initiate and end responses is decided under C07.R3",
 ]
 
 
@@ -240,6 +240,11 @@ def run(chk):
     wit = must_pass(fcl.cfg, lambda n: node_calls(n, "send_request"),
                     skip_edge=lambda n, lab: n.kind == "test" and ((src(n.ast) == "self.closed" and lab == "T") or (fcl.is_form(n.ast, "self._done and not self._error") and lab == "F")))
     chk.check(wit is None, "R6", f"{CL}:{C}.close | completed transfer is confirmed", cl.loc(), f"{path_text(wit) if wit else ''}")
+
+    # ------------------------------------------------------------------ R7 fails visibly: responses validated before use (shared with C07.R3)
+    from . import c07
+    from .common import RuleProxy
+    c07.validate_sites(RuleProxy(chk, "R7"), classes=("BlockUploadStream",))
 
 
 def _dominated_by_seq(frt, r) -> bool:
